@@ -410,7 +410,12 @@ impl GraphEngine {
         }
     }
 
-    /// Get edge weight between two nodes (returns weight and `edge_id`).
+    /// Get the cheapest edge usable from `from` to `to` (returns weight and `edge_id`).
+    ///
+    /// Every edge that `neighbors(from, edge_type, direction)` can have followed is considered:
+    /// the outgoing list for `Outgoing`/`Both`, the incoming list for `Incoming`/`Both`
+    /// (undirected edges are in both lists of both endpoints). Among parallel edges the
+    /// lightest one is returned.
     fn get_astar_edge_weight(
         &self,
         from: u64,
@@ -420,45 +425,50 @@ impl GraphEngine {
         edge_type: Option<&str>,
         direction: Direction,
     ) -> (f64, u64) {
-        let edges_key = match direction {
-            Direction::Outgoing | Direction::Both => Self::outgoing_edges_key(from),
-            Direction::Incoming => Self::incoming_edges_key(from),
-        };
-
-        for edge_id in self.get_edge_list(&edges_key) {
-            let Ok(edge) = self.get_edge(edge_id) else {
-                continue;
-            };
-
-            let connects = match direction {
-                Direction::Outgoing => edge.to == to,
-                Direction::Incoming => edge.from == to,
-                Direction::Both => edge.to == to || edge.from == to,
-            };
-
-            if !connects {
-                continue;
-            }
-
-            if let Some(et) = edge_type {
-                if edge.edge_type != et {
-                    continue;
-                }
-            }
-
-            let weight = match weight_property {
-                Some(prop) => match edge.properties.get(prop) {
-                    Some(PropertyValue::Float(w)) => *w,
-                    Some(PropertyValue::Int(w)) => *w as f64,
-                    _ => default_weight,
-                },
-                None => default_weight,
-            };
-
-            return (weight, edge_id);
+        let mut keys = Vec::with_capacity(2);
+        if direction == Direction::Outgoing || direction == Direction::Both {
+            keys.push(Self::outgoing_edges_key(from));
+        }
+        if direction == Direction::Incoming || direction == Direction::Both {
+            keys.push(Self::incoming_edges_key(from));
         }
 
-        (default_weight, 0)
+        let mut best: Option<(f64, u64)> = None;
+        for edges_key in keys {
+            for edge_id in self.get_edge_list(&edges_key) {
+                let Ok(edge) = self.get_edge(edge_id) else {
+                    continue;
+                };
+
+                // The lists already encode direction; the edge only has to join the two nodes.
+                let connects =
+                    (edge.from == from && edge.to == to) || (edge.to == from && edge.from == to);
+                if !connects {
+                    continue;
+                }
+
+                if let Some(et) = edge_type {
+                    if edge.edge_type != et {
+                        continue;
+                    }
+                }
+
+                let weight = match weight_property {
+                    Some(prop) => match edge.properties.get(prop) {
+                        Some(PropertyValue::Float(w)) => *w,
+                        Some(PropertyValue::Int(w)) => *w as f64,
+                        _ => default_weight,
+                    },
+                    None => default_weight,
+                };
+
+                if best.is_none_or(|(w, _)| weight < w) {
+                    best = Some((weight, edge_id));
+                }
+            }
+        }
+
+        best.unwrap_or((default_weight, 0))
     }
 }
 
@@ -865,5 +875,48 @@ mod tests {
         let config = AStarConfig::new();
         let result = engine.astar_path(a, b, &config).unwrap();
         assert!(result.found());
+    }
+    #[test]
+    fn test_astar_parallel_edges_use_lightest() {
+        let engine = GraphEngine::new();
+        let a = engine.create_node("A", HashMap::new()).unwrap();
+        let b = engine.create_node("B", HashMap::new()).unwrap();
+        let _heavy = create_weighted_edge(&engine, a, b, 9.0);
+        let light = create_weighted_edge(&engine, a, b, 1.0);
+
+        let result = engine.astar_path(a, b, &AStarConfig::new()).unwrap();
+        let path = result.path.unwrap();
+        assert_eq!(path.edges, vec![light]);
+        assert!((path.total_weight - 1.0).abs() < f64::EPSILON);
+    }
+
+    #[test]
+    fn test_astar_undirected_edge_from_its_to_side() {
+        let engine = GraphEngine::new();
+        let a = engine.create_node("A", HashMap::new()).unwrap();
+        let b = engine.create_node("B", HashMap::new()).unwrap();
+        let mut props = HashMap::new();
+        props.insert("weight".to_string(), PropertyValue::Float(2.0));
+        let e = engine.create_edge(a, b, "EDGE", props, false).unwrap();
+
+        // b -> a follows the undirected edge against its stored orientation
+        let result = engine.astar_path(b, a, &AStarConfig::new()).unwrap();
+        let path = result.path.unwrap();
+        assert_eq!(path.edges, vec![e]);
+        assert!((path.total_weight - 2.0).abs() < f64::EPSILON);
+    }
+
+    #[test]
+    fn test_astar_both_direction_uses_incoming_edge_weight() {
+        let engine = GraphEngine::new();
+        let a = engine.create_node("A", HashMap::new()).unwrap();
+        let b = engine.create_node("B", HashMap::new()).unwrap();
+        let e = create_weighted_edge(&engine, a, b, 3.0);
+
+        let config = AStarConfig::new().direction(Direction::Both);
+        let result = engine.astar_path(b, a, &config).unwrap();
+        let path = result.path.unwrap();
+        assert_eq!(path.edges, vec![e]);
+        assert!((path.total_weight - 3.0).abs() < f64::EPSILON);
     }
 }
